@@ -25,7 +25,8 @@ def run(ctx):
     for k in range(n):
         if ctx.time_left(budget) < 0:
             break
-        cfg = dw.gen_config(ctx, thorough, True)
+        # every fifth history is from the directed family "spike" (one dimension refined again and again at its deepest interval)
+        cfg = dw.gen_config(ctx, thorough, True, family=("spike" if k % 5 == 2 else None))
         h = dw.History(ctx, drv, cfg, PROP, check_points=True, max_points=250 if not thorough else 600)
         try:
             ok = h.run()
@@ -33,7 +34,8 @@ def run(ctx):
             import traceback
             ctx.corr_break("C03/harness-exception", h.snapshot(), traceback.format_exc()[-3000:])
             ok = False
-        for key in ("dim", "version", "margin", "rebalancing", "boundary"):
+        ctx.count("family_%s" % cfg.get("family", "random"))
+        for key in ("dim", "version", "margin", "rebalancing", "boundary", "flagrep"):
             ctx.count("%s_%s" % (key, cfg[key]))
         ctx.count("levels_%d_%d" % (cfg["lmin"], cfg["lmax"]))
         ctx.count("steps_done", len(h.case["script"]))
